@@ -3,7 +3,6 @@
 package cache
 
 import (
-	"github.com/oasisprotocol/curve25519-voi/curve"
 	"github.com/oasisprotocol/curve25519-voi/internal/verif"
 	"github.com/oasisprotocol/curve25519-voi/primitives/ed25519"
 )
@@ -13,53 +12,6 @@ import (
 // return; (b) sequential LRU specification on every history of Get/Put over a key universe larger than the
 // capacity. From (a) the operations are atomic sections of one mutex, so every interleaving is some order of
 // them; (b) covers all orders. The Go memory model and sync.Mutex are assumed, not modelled.
-
-var keyUniverse = [3]curve.CompressedEdwardsY{{1}, {2}, {3}}
-
-type refLRU struct {
-	keys []int
-	vals []*ed25519.ExpandedPublicKey
-	capa int
-}
-
-func (r *refLRU) find(k int) int {
-	for i, x := range r.keys {
-		if x == k {
-			return i
-		}
-	}
-	return -1
-}
-
-func (r *refLRU) touch(i int) {
-	k, v := r.keys[i], r.vals[i]
-	r.keys = append(r.keys[:i], r.keys[i+1:]...)
-	r.vals = append(r.vals[:i], r.vals[i+1:]...)
-	r.keys = append([]int{k}, r.keys...)
-	r.vals = append([]*ed25519.ExpandedPublicKey{v}, r.vals...)
-}
-
-func (r *refLRU) get(k int) *ed25519.ExpandedPublicKey {
-	i := r.find(k)
-	if i < 0 {
-		return nil
-	}
-	r.touch(i)
-	return r.vals[0]
-}
-
-func (r *refLRU) put(k int, v *ed25519.ExpandedPublicKey) {
-	if i := r.find(k); i >= 0 {
-		r.touch(i)
-		return
-	}
-	if len(r.keys) == r.capa {
-		r.keys = r.keys[:len(r.keys)-1]
-		r.vals = r.vals[:len(r.vals)-1]
-	}
-	r.keys = append([]int{k}, r.keys...)
-	r.vals = append([]*ed25519.ExpandedPublicKey{v}, r.vals...)
-}
 
 // history encoded in base 6: digit = 2*key + kind (kind 0 = Get, 1 = Put)
 //
@@ -114,59 +66,3 @@ func vh_C18_capacity() {
 	verif.Unreachable("capacity <= 0 must panic (documented)")
 }
 
-// ---- the caching verifier over an ARBITRARY Cache satisfying "Get(k) is nil or the expansion of k" ----
-
-type symCache struct{ hit bool }
-
-func (s *symCache) Get(k *curve.CompressedEdwardsY) *ed25519.ExpandedPublicKey {
-	if s.hit && curve.GDecodes(k[:]) {
-		return ed25519.VerifExpandedFor(k[:])
-	}
-	return nil
-}
-func (s *symCache) Put(k *curve.CompressedEdwardsY, e *ed25519.ExpandedPublicKey) {}
-
-//verif:ob prop=C09,C18,C19 name=cache_Verifier_eq_plain_verification mode=bv tags=purego use=gapi split=nk:0+31..33;ns:63..64 sharedro=1
-func vh_C09_cacheVerifier() {
-	nk, ns := verif.Case("nk"), verif.Case("ns")
-	pk := make([]byte, nk)
-	verif.AnyBytes("pk", pk)
-	sig := make([]byte, ns)
-	verif.AnyBytes("sig", sig)
-	msg := make([]byte, 1)
-	verif.AnyBytes("msg", msg)
-	v := NewVerifier(&symCache{hit: verif.AnyBool("hit")})
-	verif.SharedRO(v) // a Verifier is meant to be shared between goroutines: its only mutable state is the Cache
-	got := v.Verify(pk, msg, sig)
-	if nk != 32 {
-		verif.Assert(!got, "bad key length: false, no panic")
-		return
-	}
-	want := ed25519.VerifPredicateDefault(pk, msg, sig)
-	verif.Assert(got == want, "cached verification (hit or miss) = plain verification")
-}
-
-// Verifier.Add* never loses an entry: a key that cannot even be expanded still occupies its position in the
-// batch (and makes it fail), exactly as with the plain BatchVerifier.
-//
-//verif:ob prop=C09,C19 name=cache_Verifier_Add_keeps_malformed_entries mode=bv tags=purego use=gapi split=nk:0+31..33;which:0..1
-func vh_C09_cacheAdd() {
-	nk := verif.Case("nk")
-	pk := make([]byte, nk)
-	verif.AnyBytes("pk", pk)
-	sig := make([]byte, 64)
-	verif.AnyBytes("sig", sig)
-	msg := make([]byte, 1)
-	verif.AnyBytes("msg", msg)
-	v := NewVerifier(&symCache{hit: verif.AnyBool("hit")})
-	bv := ed25519.NewBatchVerifier()
-	if verif.Case("which") == 0 {
-		v.Add(bv, pk, msg, sig)
-	} else {
-		v.AddWithOptions(bv, pk, msg, sig, &ed25519.Options{Verify: ed25519.VerifyOptionsStdLib})
-	}
-	verif.Assert(ed25519.VerifBatchLen(bv) == 1, "the entry is in the batch")
-	if nk != 32 || !curve.GDecodes(pk) {
-		verif.Assert(ed25519.VerifBatchAnyInvalid(bv), "an entry whose key cannot be expanded is recorded as invalid")
-	}
-}
